@@ -43,4 +43,15 @@ for d in /tmp/zs_v*w; do
     fi
   done
 done
+for d in /tmp/zt_x*y; do
+  [ -d "$d" ] || continue
+  id=C$(basename $d | sed 's/zt_x\(..\)y/\1/')
+  for k in 1 2 3; do
+    if [ -s $d/round5_$k.diff ]; then
+      mkdir -p /verif/seeded/$id
+      cp $d/round5_$k.diff /verif/seeded/$id/round5_$k.diff
+      [ -f $d/round5_demo_$k.py ] && cp $d/round5_demo_$k.py /verif/seeded/$id/round5_demo_$k.py
+    fi
+  done
+done
 ls /verif/seeded
